@@ -74,101 +74,115 @@ func (r *Re) String() string {
 	panic("bad re op " + r.Op)
 }
 
-// Match reports whether the whole of s is in the language of r.
+// Match reports whether the whole of s is in the language of r. The decision is denotational: ends(r, S) is the
+// set of positions reachable by matching r from some position in S, so matching costs polynomial time whatever the
+// nesting of stars (a backtracking search is exponential on e.g. (x*)* over a long run of x).
 func (r *Re) Match(s string) bool {
 	rs := []rune(s)
-	budget := 200000
-	ok := false
-	r.m(rs, 0, func(j int) bool {
-		if j == len(rs) {
-			ok = true
-			return true
-		}
-		return false
-	}, &budget)
-	return ok
+	start := make([]bool, len(rs)+1)
+	start[0] = true
+	return r.ends(rs, start)[len(rs)]
 }
 
-// m calls k with every end position reachable by matching r at i; k returns
-// true to stop the search.
-func (r *Re) m(s []rune, i int, k func(int) bool, budget *int) bool {
-	*budget--
-	if *budget < 0 {
-		panic("ref.Re: step budget exhausted")
+func anySet(a []bool) bool {
+	for _, b := range a {
+		if b {
+			return true
+		}
 	}
+	return false
+}
+
+// ends returns the set of end positions of matches of r that start at a position of `from`.
+func (r *Re) ends(s []rune, from []bool) []bool {
+	out := make([]bool, len(s)+1)
 	switch r.Op {
 	case "lit":
 		l := []rune(r.Lit)
-		if i+len(l) > len(s) {
-			return false
-		}
-		for j, c := range l {
-			if s[i+j] != c {
-				return false
+		for i, ok := range from {
+			if !ok || i+len(l) > len(s) {
+				continue
+			}
+			eq := true
+			for j, c := range l {
+				if s[i+j] != c {
+					eq = false
+					break
+				}
+			}
+			if eq {
+				out[i+len(l)] = true
 			}
 		}
-		return k(i + len(l))
+		return out
 	case "any":
 		// RE2 default: '.' does not match newline.
-		if i < len(s) && s[i] != '\n' {
-			return k(i + 1)
+		for i, ok := range from {
+			if ok && i < len(s) && s[i] != '\n' {
+				out[i+1] = true
+			}
 		}
-		return false
+		return out
 	case "class":
-		if i >= len(s) {
-			return false
+		for i, ok := range from {
+			if ok && i < len(s) && strings.ContainsRune(r.Lit, s[i]) != r.Neg {
+				out[i+1] = true
+			}
 		}
-		in := strings.ContainsRune(r.Lit, s[i])
-		if in != r.Neg {
-			return k(i + 1)
-		}
-		return false
+		return out
 	case "cat":
-		return catM(r.Subs, s, i, k, budget)
+		cur := from
+		for _, sub := range r.Subs {
+			cur = sub.ends(s, cur)
+			if !anySet(cur) {
+				return out
+			}
+		}
+		copy(out, cur)
+		return out
 	case "alt":
 		for _, sub := range r.Subs {
-			if sub.m(s, i, k, budget) {
-				return true
+			for i, ok := range sub.ends(s, from) {
+				if ok {
+					out[i] = true
+				}
 			}
 		}
-		return false
+		return out
 	case "group":
-		return r.Subs[0].m(s, i, k, budget)
+		return r.Subs[0].ends(s, from)
 	case "opt":
-		if r.Subs[0].m(s, i, k, budget) {
-			return true
-		}
-		return k(i)
-	case "star":
-		return starM(r.Subs[0], s, i, k, budget)
-	case "plus":
-		return r.Subs[0].m(s, i, func(j int) bool {
-			if j == i {
-				return k(j)
+		copy(out, from)
+		for i, ok := range r.Subs[0].ends(s, from) {
+			if ok {
+				out[i] = true
 			}
-			return starM(r.Subs[0], s, j, k, budget)
-		}, budget)
+		}
+		return out
+	case "star":
+		return starEnds(r.Subs[0], s, from)
+	case "plus":
+		return starEnds(r.Subs[0], s, r.Subs[0].ends(s, from))
 	}
 	panic("bad re op " + r.Op)
 }
 
-func catM(subs []*Re, s []rune, i int, k func(int) bool, budget *int) bool {
-	if len(subs) == 0 {
-		return k(i)
-	}
-	return subs[0].m(s, i, func(j int) bool { return catM(subs[1:], s, j, k, budget) }, budget)
-}
-
-func starM(sub *Re, s []rune, i int, k func(int) bool, budget *int) bool {
-	if k(i) {
-		return true
-	}
-	return sub.m(s, i, func(j int) bool {
-		if j == i { // empty iteration: no progress
-			return false
+// starEnds: least fixed point of R = from ∪ ends(sub, R), computed on the frontier of new positions.
+func starEnds(sub *Re, s []rune, from []bool) []bool {
+	out := make([]bool, len(s)+1)
+	copy(out, from)
+	frontier := from
+	for anySet(frontier) {
+		next := make([]bool, len(s)+1)
+		for i, ok := range sub.ends(s, frontier) {
+			if ok && !out[i] {
+				out[i] = true
+				next[i] = true
+			}
 		}
-		return starM(sub, s, j, k, budget)
-	}, budget)
+		frontier = next
+	}
+	return out
 }
 
 // Matcher is the reference form of one label matcher.
